@@ -1,8 +1,160 @@
 import DarkluaModel.Util.Sexp
-/-! Line-protocol handlers for property C13 (stub: nothing modelled yet). -/
+import DarkluaModel.C13.Model
+import DarkluaModel.C13.Spec
+/-! Line-protocol handlers for property C13. -/
 namespace DarkluaModel.C13
 
-def handle (op : String) (_args : List String) : String :=
-  "unknown-op " ++ op
+def dialect? : String → Option Spec.Dialect
+  | "luau" => some .luau
+  | "lua51" => some .lua51
+  | _ => none
+
+def showOptBytes : Option (List UInt8) → String
+  | some bs => "some " ++ bytesToHex bs
+  | none => "none"
+
+def showOptBytes1 : Option (List UInt8) → String
+  | some bs => "some:" ++ bytesToHex bs
+  | none => "none"
+
+def showSeg : Option (List UInt8 × List UInt8) → String
+  | some (out, rest) => "some:" ++ bytesToHex out ++ ":" ++ bytesToHex rest
+  | none => "none"
+
+/-! number literals on the wire: `d:f<16 hex>:<exp|n>:<u|l>`, `h:<int>:<exp|n>:<u|l>:<u|l>`, `b:<int>:<u|l>` -/
+
+def upper? : String → Option Bool
+  | "u" => some true
+  | "l" => some false
+  | _ => none
+
+def wireBits? (s : String) : Option UInt64 :=
+  match s.toList with
+  | 'f' :: rest => if rest.length == 16 then (hexNat? rest).map UInt64.ofNat else none
+  | _ => none
+
+def bitsToWire (b : UInt64) : String := "f" ++ natToHex16 b.toNat
+
+def numLit? (s : String) : Option (NumLit UInt64) :=
+  match s.splitOn ":" with
+  | ["d", f, e, u] => do
+    let bits ← wireBits? f
+    let up ← upper? u
+    if e == "n" then pure (.decimal bits none)
+    else
+      let ev ← e.toInt?
+      pure (.decimal bits (some (ev, up)))
+  | ["h", n, e, eu, xu] => do
+    let nv ← n.toNat?
+    let eup ← upper? eu
+    let xup ← upper? xu
+    if e == "n" then pure (.hex nv none xup)
+    else
+      let ev ← e.toNat?
+      pure (.hex nv (some (ev, eup)) xup)
+  | ["b", n, u] => do
+    let nv ← n.toNat?
+    let up ← upper? u
+    pure (.binary nv up)
+  | _ => none
+
+def ul (b : Bool) : String := if b then "u" else "l"
+
+def showNumLit : NumLit UInt64 → String
+  | .decimal x none => s!"d:{bitsToWire x}:n:l"
+  | .decimal x (some (e, u)) => s!"d:{bitsToWire x}:{e}:{ul u}"
+  | .hex n none xu => s!"h:{n}:n:l:{ul xu}"
+  | .hex n (some (e, eu)) xu => s!"h:{n}:{e}:{ul eu}:{ul xu}"
+  | .binary n u => s!"b:{n}:{ul u}"
+
+def showErr : NumberParsingError → String
+  | .invalidHexadecimalNumber => "InvalidHexadecimalNumber"
+  | .invalidHexadecimalExponent => "InvalidHexadecimalExponent"
+  | .invalidDecimalNumber => "InvalidDecimalNumber"
+  | .invalidDecimalExponent => "InvalidDecimalExponent"
+  | .invalidBinaryNumber => "InvalidBinaryNumber"
+
+def showOptBits : Option UInt64 → String
+  | some b => "some:" ++ bitsToWire b
+  | none => "none"
+
+def showDesc : Option Spec.NumDesc → String
+  | some (.int n) => s!"int:{n}"
+  | some (.dec d e) => s!"dec:{d}:{e}"
+  | none => "none"
+
+def handle (op : String) (args : List String) : String :=
+  match op, args with
+  | "wstr", [h] =>
+    match hexToBytes? h with
+    | some v => bytesToHex (writeString v)
+    | none => "bad-args"
+  | "wseg", [h] =>
+    match hexToBytes? h with
+    | some v => bytesToHex (writeInterpSegment v)
+    | none => "bad-args"
+  | "decode", [d, h] =>
+    match dialect? d, hexToBytes? h with
+    | some d, some t => showOptBytes (Spec.decodeLiteral d t)
+    | _, _ => "bad-args"
+  | "dseg", [h] =>
+    match hexToBytes? h with
+    | some t =>
+      match Spec.decodeInterpSegment t with
+      | some (out, rest) => "some " ++ bytesToHex out ++ " " ++ bytesToHex rest
+      | none => "none"
+    | none => "bad-args"
+  -- combined: value, real output ↦ model output, both decodings of the REAL output, hypotheses
+  | "str", [hv, hr] =>
+    match hexToBytes? hv, hexToBytes? hr with
+    | some v, some r =>
+      " ".intercalate [bytesToHex (writeString v), showOptBytes1 (Spec.decodeLiteral .luau r),
+        showOptBytes1 (Spec.decodeLiteral .lua51 r), toString (straddles v), toString (lua51Safe v),
+        toString (usesLongBracket v)]
+    | _, _ => "bad-args"
+  -- combined for interpolated segments: the real output is decoded followed by each terminator
+  | "seg", [hv, hr] =>
+    match hexToBytes? hv, hexToBytes? hr with
+    | some v, some r =>
+      " ".intercalate [bytesToHex (writeInterpSegment v), showSeg (Spec.decodeInterpSegment (r ++ [96])),
+        showSeg (Spec.decodeInterpSegment (r ++ [123, 120, 125]))]
+    | _, _ => "bad-args"
+  -- number: literal, real output ↦ model output, value of the REAL output by the reference
+  | "num", [lit, hr] =>
+    match numLit? lit, hexToBytes? hr with
+    | some l, some r =>
+      bytesToHex (writeNumber floatOps l) ++ " " ++ showOptBits (Spec.evalWritten r)
+    | _, _ => "bad-args"
+  | "wnum", [lit] =>
+    match numLit? lit with
+    | some l => bytesToHex (writeNumber floatOps l)
+    | none => "bad-args"
+  -- value of a piece of written number text (literal, `-`literal, `(a/b)`) by the reference
+  | "nval", [h] =>
+    match hexToBytes? h with
+    | some t => showOptBits (Spec.evalWritten t)
+    | none => "bad-args"
+  -- parse a number token: model of FromStr, reference description and value
+  | "pnum", [h] =>
+    match hexToBytes? h with
+    | some t =>
+      (match parseNumber floatOps t with
+       | .ok l => "ok:" ++ showNumLit l
+       | .error e => "err:" ++ showErr e)
+      ++ " " ++ showDesc (Spec.luauNumber? t) ++ " " ++ showOptBits (Spec.numberValue t)
+    | none => "bad-args"
+  | "lua51safe", [h] =>
+    match hexToBytes? h with
+    | some v => toString (lua51Safe v)
+    | none => "bad-args"
+  | "straddles", [h] =>
+    match hexToBytes? h with
+    | some v => toString (straddles v)
+    | none => "bad-args"
+  | "longform", [h] =>
+    match hexToBytes? h with
+    | some v => toString (usesLongBracket v)
+    | none => "bad-args"
+  | _, _ => "unknown-op " ++ op
 
 end DarkluaModel.C13
